@@ -43,7 +43,7 @@ const (
 	// ("x:[S]y","z") and ("x","y:[S]z") get one key and are merged
 	// -> signature key_delimiter_collision. Avoided by never putting ':'
 	// directly before a marker "[S] [I] [F] [D] [B] [T] [N]" inside one cell.
-	avoidKnownDelimiterCollision = false
+	avoidKnownDelimiterCollision = true
 	// float zeros of different sign ('0.0' and '-0.0', 0.0 and -0.0) are equal
 	// values but get the keys "[F]0" and "[F]-0" -> signature
 	// negative_zero_split. Avoided by not generating negative float zeros.
@@ -353,7 +353,7 @@ func genAtom(t *rapid.T, csv bool, mustBeText bool) val.Val {
 // tuple glues atoms i and i+1 into column i, the other atoms j and j+1 into
 // column j (i != j), where glueing writes the second atom the way it would
 // appear inside an unescaped key.
-func genCollidingPair(t *rapid.T, n int, csv, strict bool) ([]val.Val, []val.Val) {
+func genCollidingPair(t *rapid.T, n int, csv, strict bool, withSeparator bool) ([]val.Val, []val.Val) {
 	i := fw.Uniform(t, "glueA", n)
 	j := fw.Uniform(t, "glueB", n-1)
 	if j >= i {
@@ -363,6 +363,11 @@ func genCollidingPair(t *rapid.T, n int, csv, strict bool) ([]val.Val, []val.Val
 	for p := range atoms {
 		atoms[p] = genAtom(t, csv, p == i || p == j)
 	}
+	// mostly the real separator; sometimes none (keys simply concatenated)
+	sep := ":"
+	if !withSeparator || fw.Pct(t, "noSeparator", 12) {
+		sep = ""
+	}
 	build := func(g int) []val.Val {
 		var out []val.Val
 		for p := 0; p <= n; p++ {
@@ -371,7 +376,7 @@ func genCollidingPair(t *rapid.T, n int, csv, strict bool) ([]val.Val, []val.Val
 				if !ok {
 					part = "[S]" + atoms[p+1].S
 				}
-				out = append(out, val.Str(atoms[p].S+":"+part))
+				out = append(out, val.Str(atoms[p].S+sep+part))
 				p++
 				continue
 			}
@@ -461,9 +466,11 @@ func genTbl(t *rapid.T, opt tblOpt) tblCase {
 		}
 		keyRows = append(keyRows, kr)
 	}
-	plant := opt.collision || (!avoidKnownDelimiterCollision && c.NKeys >= 2 && !large && fw.Pct(t, "plant", 10))
+	// the general generators plant the pair too: glued without the separator
+	// while the real collision is to be avoided
+	plant := opt.collision || (c.NKeys >= 2 && !large && fw.Pct(t, "plant", 10))
 	if plant {
-		a, b := genCollidingPair(t, c.NKeys, csv, c.Strict)
+		a, b := genCollidingPair(t, c.NKeys, csv, c.Strict, opt.collision || !avoidKnownDelimiterCollision)
 		c.Planted = true
 		for _, tup := range [][]val.Val{a, b} {
 			reps := 1 + fw.Weighted(t, "plantReps", []int{70, 30})
@@ -955,6 +962,9 @@ func (m *tblModel) checkAggregates(sql string, bucket []int, specs []aggSpec, go
 			} else {
 				o.Classes = append(o.Classes, "sum_distinct_open")
 			}
+			if lo == hi && len(reps) >= 2 {
+				o.Classes = append(o.Classes, "sum_distinct_asserted")
+			}
 		case "min", "max", "min_s", "max_s":
 			vs := xs
 			if strings.HasSuffix(a.name, "_s") {
@@ -973,6 +983,9 @@ func (m *tblModel) checkAggregates(sql string, bucket []int, specs []aggSpec, go
 					v = fail(a, g, "NULL")
 				}
 			default:
+				if len(nonNull(vs)) >= 2 {
+					o.Classes = append(o.Classes, "minmax_asserted")
+				}
 				found := false
 				for _, p := range idx {
 					if ref.C04Identical(vs[p], g) {
@@ -1252,10 +1265,18 @@ func checkTbl(c tblCase) (fw.Outcome, *fw.Violation) {
 			tr.empty = true
 		}
 	}
+	finishOutcome(&o, tr, c.Planted)
+	if tr.nonTrivial() {
+		o.Fingerprint = tr.fingerprint(c.Kind, c.NKeys, c.Strict)
+	}
+	return o, nil
+}
+
+// finishOutcome adds the cell classes and traits and removes duplicate labels.
+func finishOutcome(o *fw.Outcome, tr caseTraits, planted bool) {
 	for cl := range tr.classes {
 		o.Classes = append(o.Classes, "cell:"+cl)
 	}
-	sort.Strings(o.Classes)
 	if tr.delim {
 		o.Classes = append(o.Classes, "trait:delimiter_in_multi_key")
 	}
@@ -1265,13 +1286,20 @@ func checkTbl(c tblCase) (fw.Outcome, *fw.Violation) {
 	if tr.empty {
 		o.Classes = append(o.Classes, "trait:empty_group")
 	}
-	if c.Planted {
+	if planted {
 		o.Classes = append(o.Classes, "trait:planted_collision")
 	}
-	if tr.nonTrivial() {
-		o.Fingerprint = tr.fingerprint(c.Kind, c.NKeys, c.Strict)
+	if !tr.nonTrivial() {
+		o.Classes = append(o.Classes, "trait:none")
 	}
-	return o, nil
+	sort.Strings(o.Classes)
+	out := o.Classes[:0]
+	for i, cl := range o.Classes {
+		if i == 0 || cl != o.Classes[i-1] {
+			out = append(out, cl)
+		}
+	}
+	o.Classes = out
 }
 
 func traitsAllRows(c tblCase) []ref.C04Tuple {
@@ -1548,7 +1576,7 @@ var aggAssumptions = []string{
 
 func TestC04Group(t *testing.T) {
 	fw.Run(t, fw.Spec[tblCase]{
-		ID: "C04", Name: "group", Quick: 9000, Thorough: 180000,
+		ID: "C04", Name: "group", Quick: 6000, Thorough: 120000,
 		Gen:         func(t *rapid.T) tblCase { return genTbl(t, tblOpt{kinds: []string{"group"}}) },
 		Check:       checkTbl,
 		Rule:        "table (temp typed / CSV text) with unique id, 0-3 key columns drawn from clusters of spellings equal across types plus ':' and marker texts, x numeric-ish, s text; SELECT LISTAGG(id), 22 aggregates, key columns GROUP BY keys [WHERE] and a second query with HAVING; csvq's buckets vs E_strict/E_loose, every aggregate recomputed over csvq's bucket; CPU 4 with 160-230 rows in 10%; non-trivial = >=2 keys with a ':'/marker cell, or two rows equal across spellings, or an empty group; distinct by (kind, #keys, traits, cell classes, strict)",
@@ -1558,7 +1586,7 @@ func TestC04Group(t *testing.T) {
 
 func TestC04Distinct(t *testing.T) {
 	fw.Run(t, fw.Spec[tblCase]{
-		ID: "C04", Name: "distinct", Quick: 9000, Thorough: 180000,
+		ID: "C04", Name: "distinct", Quick: 6000, Thorough: 120000,
 		Gen:         func(t *rapid.T) tblCase { return genTbl(t, tblOpt{kinds: []string{"distinct"}}) },
 		Check:       checkTbl,
 		Rule:        "same tables; SELECT DISTINCT keys [WHERE]: every result row is an input row, no two result rows E_strict-equal, every input row has an E_loose-equal result row; non-trivial and distinct as in group",
@@ -1568,7 +1596,7 @@ func TestC04Distinct(t *testing.T) {
 
 func TestC04Partition(t *testing.T) {
 	fw.Run(t, fw.Spec[tblCase]{
-		ID: "C04", Name: "partition", Quick: 7000, Thorough: 140000,
+		ID: "C04", Name: "partition", Quick: 5000, Thorough: 100000,
 		Gen:         func(t *rapid.T) tblCase { return genTbl(t, tblOpt{kinds: []string{"partition"}}) },
 		Check:       checkTbl,
 		Rule:        "same tables; SELECT id, LISTAGG(id) OVER (PARTITION BY keys), aggregates OVER (PARTITION BY keys): the partitions reported by the rows form one partition of the table, which is held against E_strict/E_loose; every aggregate recomputed per row over its partition",
@@ -1578,7 +1606,7 @@ func TestC04Partition(t *testing.T) {
 
 func TestC04Empty(t *testing.T) {
 	fw.Run(t, fw.Spec[tblCase]{
-		ID: "C04", Name: "empty", Quick: 4000, Thorough: 80000,
+		ID: "C04", Name: "empty", Quick: 3000, Thorough: 60000,
 		Gen: func(t *rapid.T) tblCase {
 			return genTbl(t, tblOpt{kinds: []string{"group", "group", "partition", "distinct"}, emptyBias: true})
 		},
@@ -1590,7 +1618,7 @@ func TestC04Empty(t *testing.T) {
 
 func TestC04CollisionTbl(t *testing.T) {
 	fw.Run(t, fw.Spec[tblCase]{
-		ID: "C04", Name: "collision_tbl", Quick: 3000, Thorough: 60000,
+		ID: "C04", Name: "collision_tbl", Quick: 1500, Thorough: 30000,
 		Gen: func(t *rapid.T) tblCase {
 			return genTbl(t, tblOpt{kinds: []string{"group", "distinct", "partition"}, collision: true})
 		},
@@ -1656,8 +1684,8 @@ func genSet(t *rapid.T, collision bool) setCase {
 	} else if fw.Pct(t, "cpu2", 15) {
 		c.CPU = 2
 	}
-	if collision || (!avoidKnownDelimiterCollision && c.NKeys >= 2 && !large && fw.Pct(t, "plant", 10)) {
-		a, b := genCollidingPair(t, c.NKeys, csv, c.Strict)
+	if collision || (c.NKeys >= 2 && !large && fw.Pct(t, "plant", 10)) {
+		a, b := genCollidingPair(t, c.NKeys, csv, c.Strict, collision || !avoidKnownDelimiterCollision)
 		c.Planted = true
 		insert := func(rows [][]val.Val, tup []val.Val) [][]val.Val {
 			pos := fw.Uniform(t, "plantPos", len(rows)+1)
@@ -1814,10 +1842,13 @@ func checkSet(c setCase) (fw.Outcome, *fw.Violation) {
 			}
 		}
 		for i, r := range c.A {
-			strictMatch, looseMatch := false, false
+			strictMatch, looseMatch, zeroSign := false, false, false
 			for j := range c.B {
 				if ref.C04EStrictTuple(aN[i], bN[j], strict) {
 					strictMatch = true
+					if ref.C04ZeroSignOnly(aN[i], bN[j]) {
+						zeroSign = true
+					}
 				}
 				if ref.C04ELooseTuple(aN[i], bN[j], strict) {
 					looseMatch = true
@@ -1833,6 +1864,9 @@ func checkSet(c setCase) (fw.Outcome, *fw.Violation) {
 				sig := lname + "_kept_row"
 				if anyCollisionShaped(r) || anyCollisionShaped(c.B...) {
 					sig = "key_delimiter_collision"
+				}
+				if zeroSign {
+					sig = "negative_zero_split"
 				}
 				return o, fw.V(sig, "%s (strict_equal=%v): left row %s must not be in the result (right side: %s)", sql, strict, fmtTuple(r), fmtRows(c.B))
 			}
@@ -1854,6 +1888,9 @@ func checkSet(c setCase) (fw.Outcome, *fw.Violation) {
 					if anyCollisionShaped(r) || anyCollisionShaped(c.B...) || anyCollisionShaped(c.A...) {
 						sig = "key_delimiter_collision"
 					}
+					if zeroSign {
+						sig = "negative_zero_split"
+					}
 					return o, fw.V(sig, "%s (strict_equal=%v): left row %s (%d times on the left) must be in the result, found %d times (right side: %s; result: %s)", sql, strict, fmtTuple(r), na, g, fmtRows(c.B), fmtRows(res))
 				}
 			}
@@ -1871,22 +1908,7 @@ func checkSet(c setCase) (fw.Outcome, *fw.Violation) {
 	if len(all) >= 160 {
 		o.Classes = append(o.Classes, "large")
 	}
-	for cl := range tr.classes {
-		o.Classes = append(o.Classes, "cell:"+cl)
-	}
-	sort.Strings(o.Classes)
-	if tr.delim {
-		o.Classes = append(o.Classes, "trait:delimiter_in_multi_key")
-	}
-	if tr.cross {
-		o.Classes = append(o.Classes, "trait:equal_across_spellings")
-	}
-	if tr.empty {
-		o.Classes = append(o.Classes, "trait:empty_group")
-	}
-	if c.Planted {
-		o.Classes = append(o.Classes, "trait:planted_collision")
-	}
+	finishOutcome(&o, tr, c.Planted)
 	if tr.nonTrivial() {
 		o.Fingerprint = tr.fingerprint(lname, c.NKeys, strict)
 	}
@@ -1901,7 +1923,7 @@ var setAssumptions = []string{
 
 func TestC04SetOp(t *testing.T) {
 	fw.Run(t, fw.Spec[setCase]{
-		ID: "C04", Name: "setop", Quick: 12000, Thorough: 240000,
+		ID: "C04", Name: "setop", Quick: 8000, Thorough: 160000,
 		Gen:         func(t *rapid.T) setCase { return genSet(t, false) },
 		Check:       checkSet,
 		Rule:        "two tables (temp typed / CSV text) of 1-3 key columns from the same clusters; a UNION|EXCEPT|INTERSECT [ALL] b: UNION ALL is the multiset sum; UNION survivors as in distinct; EXCEPT/INTERSECT: left rows with an E_strict match on the right must be dropped/kept, rows without an E_loose match kept/dropped, ALL keeps every copy, without ALL no two result rows E_strict-equal; non-trivial as in group (empty = an empty side or empty result)",
@@ -1911,7 +1933,7 @@ func TestC04SetOp(t *testing.T) {
 
 func TestC04CollisionSet(t *testing.T) {
 	fw.Run(t, fw.Spec[setCase]{
-		ID: "C04", Name: "collision_set", Quick: 3000, Thorough: 60000,
+		ID: "C04", Name: "collision_set", Quick: 1500, Thorough: 30000,
 		Gen:         func(t *rapid.T) setCase { return genSet(t, true) },
 		Check:       checkSet,
 		Rule:        "collision search for the set operators: the colliding pair of collision_tbl placed on the two sides or both on the left",
